@@ -340,4 +340,35 @@ example : check (.str [104, 105]) .lt (.num (3 : Rat)) (.num 0) = .error .typeEr
     Clause.eval ([] : Env Rat) ⟨true, .compare 7 .eq (.lit (.str [104])) (.num 0)⟩ = .ok true := by
   constructor <;> rfl
 
+/-! ## no memory -/
+
+/-- **stateless**: what a need, a clause or a need list evaluates to depends only on the CURRENT
+contents of the fields (two stores that hold the same values give the same result, whatever was
+there or was evaluated before) -/
+theorem C21_stateless (e e' : Env Rat) (h : ∀ k, e.get k = e'.get k) (n : Need Rat) (c : Clause Rat)
+    (cs : List (Clause Rat)) :
+    n.eval e = n.eval e' ∧ c.eval e = c.eval e' ∧ evalAll e cs = evalAll e' cs := by
+  have hn : ∀ n : Need Rat, n.eval e = n.eval e' := by
+    intro n
+    cases n with
+    | boolean k => simp only [Need.eval, h k]
+    | compare k cmp g tol =>
+      cases g with
+      | lit v => simp only [Need.eval, Goal.val, h k]
+      | ref j => simp only [Need.eval, Goal.val, h k, h j]
+  have hc : ∀ c : Clause Rat, c.eval e = c.eval e' := by
+    intro c; simp only [Clause.eval, hn c.need]
+  refine ⟨hn n, hc c, ?_⟩
+  induction cs with
+  | nil => rfl
+  | cons c rest ih => simp only [evalAll, hc c, ih]
+
+/-- only the fields a need mentions matter -/
+theorem C21_reads_only_its_fields (e e' : Env Rat) (k : Nat) (cmp : Cmp) (g : Goal Rat) (tol : PyVal Rat)
+    (hk : e.get k = e'.get k) (hg : ∀ j, g = .ref j → e.get j = e'.get j) :
+    (Need.compare k cmp g tol).eval e = (Need.compare k cmp g tol).eval e' := by
+  cases g with
+  | lit v => simp only [Need.eval, Goal.val, hk]
+  | ref j => simp only [Need.eval, Goal.val, hk, hg j rfl]
+
 end Ioflo.Need
